@@ -3,6 +3,7 @@
  * repository's own) in a second thread with strict hand-off.  The environment (clock, rand, select,
  * sockets, tun device, syslog, zlib) is substituted at compile time by shim_srv.h.
  * Built with -DIODINE_VERIF: write_dns() reports its arguments through verif_hook_write_dns(). */
+#include <errno.h>
 #include "h_common.h"
 #include <pthread.h>
 #include <semaphore.h>
@@ -364,6 +365,15 @@ ssize_t verif_sendto(int fd, const void *buf, size_t len, int flags, const struc
 	const char *kind;
 	(void) flags;
 	if (mm) { mm_sent(p, len); return (ssize_t) len; }
+	/* what the kernel does with a destination of the other address family (a v6 address on the v4 socket or the reverse, a v6 address on the
+	   forward socket): EAFNOSUPPORT, nothing is sent.  Reported as an event of its own: the model never produces it. */
+	if (to && ((fd == V4_FD && to->sa_family == AF_INET6) || (fd == V6_FD && to->sa_family == AF_INET) || (fd == BIND_FD && to->sa_family == AF_INET6))) {
+		after_ans = 0;
+		ev_begin("badfam ");
+		ev_addr(to, tolen);
+		errno = EAFNOSUPPORT;
+		return -1;
+	}
 	if (fd == BIND_FD) kind = "fwd";
 	else if (after_ans) kind = "tx";
 	else if (in_bind_op) kind = "rly";
